@@ -166,6 +166,11 @@ def run(prog, rep, tier, repo):
         else:
             rep.undecided('routing', key, 'no factorisation route call found', site_of(f.body), proof=False)
     rep.floor('routing', 8, 'solve, solve_sys x (predicate, fallback, operands, sources)')
+    # the fallback to pivoted LU hangs on try_cholesky answering None for every pivot that is not positive -- zero and NaN included: a test
+    # written `pivot < 0` lets 0/0 = NaN into the factor and the slice solvers return NaN where LU has the answer (C11's rule, same body)
+    from . import c11
+    c11.pivot_guard(prog, rep, (D + 'cholesky::try_cholesky',))
+    rep.floor('pivot-guard', 1, 'try_cholesky')
 
     # ------------------------------------------------------------------ Matrix solvers route through Matrix::lu only
     for tr in (V, M):
